@@ -4,6 +4,7 @@
 package c17
 
 import (
+	"encoding/json"
 	"context"
 	"fmt"
 	"net"
@@ -26,7 +27,11 @@ import (
 	"verifharness/kit"
 )
 
-func TestMain(m *testing.M) { kit.Main(m) }
+func TestMain(m *testing.M) {
+	// a deadlock in the shared state hangs a test instead of failing it: see kit/wedge.go
+	kit.StartWedgeWatch("C17", "github.com/bbockelm/cedar/", 45*time.Second, 15*time.Second)
+	kit.Main(m)
+}
 
 var ev = kit.Ev("C17")
 
@@ -70,6 +75,7 @@ func newEntry(i int, lease time.Duration) *security.SessionEntry {
 }
 
 func runProgram(p Program) (string, map[string]bool) {
+	kit.Current(p)
 	old := runtime.GOMAXPROCS(p.Procs)
 	defer runtime.GOMAXPROCS(old)
 	cache := security.NewSessionCache()
@@ -438,7 +444,11 @@ func TestC17DumpIsOneView(t *testing.T) {
 			}(wri)
 		}
 		torn := ""
+		kit.Current(map[string]any{"dump_view": procs})
 		for d := 0; d < dumps && torn == ""; d++ {
+			if d%64 == 0 {
+				kit.Beat()
+			}
 			dump := cache.DebugDump()
 			listed := map[string]bool{}
 			inMap := false
@@ -488,7 +498,11 @@ func TestC17LostStore(t *testing.T) {
 		old := runtime.GOMAXPROCS(procs)
 		cache := security.NewSessionCache()
 		lost := 0
+		kit.Current(map[string]any{"lost_store": procs})
 		for r := 0; r < rounds && lost == 0; r++ {
+			if r%64 == 0 {
+				kit.Beat()
+			}
 			stale := newEntry(0, time.Minute)
 			stale.VerifSetExpiration(time.Now().Add(-time.Second))
 			cache.Store(stale)
@@ -526,17 +540,39 @@ func TestC17LostStore(t *testing.T) {
 }
 
 func TestC17Replay(t *testing.T) {
-	var c struct {
+	type rcase struct {
 		Program
 		Storm
-		Directed []string `json:"directed"`
+		Directed []string        `json:"directed"`
+		Wedged   bool            `json:"wedged"`
+		Running  json.RawMessage `json:"running"`
+		DumpView int             `json:"dump_view"`
+		Lost     int             `json:"lost_store"`
+		Burst    int             `json:"listener_burst"`
 	}
+	var c rcase
 	ok, err := kit.ReplayCase(&c)
 	if !ok {
 		t.Skip("no VERIF_REPLAY")
 	}
 	if err != nil {
 		t.Fatal(err)
+	}
+	if c.Wedged {
+		// the case that was running when the process wedged: run it again (the wedge watch is active here too)
+		var r rcase
+		if err := json.Unmarshal(c.Running, &r); err != nil {
+			t.Fatal(err)
+		}
+		c = r
+		switch {
+		case c.DumpView > 0:
+			TestC17DumpIsOneView(t)
+		case c.Lost > 0:
+			TestC17LostStore(t)
+		case c.Burst > 0:
+			TestC17ListenerBurst(t)
+		}
 	}
 	if len(c.Progs) > 0 {
 		for i := 0; i < 20; i++ {
@@ -607,6 +643,7 @@ type Storm struct {
 }
 
 func runStorm(s Storm) string {
+	kit.Current(s)
 	old := runtime.GOMAXPROCS(s.Procs)
 	defer runtime.GOMAXPROCS(old)
 	addr, stop := startServer(panicT{}, s.PerCmd)
@@ -769,6 +806,7 @@ func TestC17ManagerStorms(t *testing.T) {
 // is handled in its own goroutine and reports its result on the ONE broker stream while the
 // reader keeps reading. Every result must arrive as a well-formed control ad, exactly once.
 func runListenerBurst(n, deadEvery, procs int) string {
+	kit.Current(map[string]any{"listener_burst": n, "dead_every": deadEvery, "procs": procs})
 	old := runtime.GOMAXPROCS(procs)
 	defer runtime.GOMAXPROCS(old)
 	bl, err := net.Listen("tcp", "127.0.0.1:0")
